@@ -32,4 +32,9 @@ def main() -> int:
 
 if __name__ == "__main__":
     sys.stdout.reconfigure(line_buffering=True)
-    sys.exit(main())
+    rc = main()
+    # leave without interpreter teardown: transports of finished subprocesses print "Event loop is closed" from __del__
+    # when they are collected after their loop, and a stuck helper thread must not keep a finished check alive
+    sys.stdout.flush()
+    sys.stderr.flush()
+    os._exit(rc)
